@@ -18,6 +18,7 @@ Known on the unchanged tree: the four 10-bit setters clear the six low bits of t
 import json, os, sys
 sys.path.insert(0, os.path.dirname(os.path.dirname(os.path.abspath(__file__))))
 from vlib import *
+from concurrent.futures import ThreadPoolExecutor
 
 META = dict(
     property_id="C09", engine="tlc-ielayout",
@@ -120,12 +121,31 @@ def run(c):
         jobs.append(dict(ti=o["ti"], fi=o["fi"], type=o["type"], field=o["field"], r0=f["r0"], r1=f["r1"], L=g["L"], values=vals, p1s=p1s))
     jp = os.path.join(c.scratch, "jobs.json"); json.dump(jobs, open(jp, "w"))
     drive(["digest", jp, out3], timeout=1800)
+    # cold-start ordering: fresh processes in which ONE accessor is the first library call (one representative per distinct
+    # field shape (kind, rows, start bit, width) in quick, every accessor in thorough), then one case of every accessor
+    shapes = {}
+    for k, o in enumerate(cases):
+        f = tab["types"][o["ti"] - 1]["fields"][o["fi"] - 1]
+        shapes.setdefault((f["kind"], f["r1"] - f["r0"], f.get("sbit"), f.get("n")), []).append(k)
+    firsts = list(range(len(cases))) if thorough else sorted(c.rng.choice(v) for v in shapes.values())
+    c.cov["cold_start_orders"] = len(firsts)
+    def one_order(k):
+        o = os.path.join(c.scratch, "order-%d.ndjson" % k)
+        r = c.run_driver(drv, ["order", cp, o, k], timeout=600)
+        n = sum(int(ln.split()[1]) for ln in r.stderr.splitlines() if ln.startswith("calls "))
+        ev_ = read_ndjson(o); os.unlink(o)
+        return ev_, n
+    oevents, oowner = [], []
+    with ThreadPoolExecutor(max_workers=12) as ex:
+        for k, (ev_, n) in zip(firsts, ex.map(one_order, firsts)):
+            oowner += [(k, j) for j in range(len(ev_))]; oevents += ev_; calls += n
     events = read_ndjson(out1) + read_ndjson(out2)
+    nplain = len(events)
     devents = read_ndjson(out3)
     # events are independent: deal them round-robin so that every validator shard gets the same mix of element sizes
     events = [x for k in range(12) for x in events[k::12]]
     devents = [x for k in range(12) for x in devents[k::12]]
-    if len(events) != ncases + nrec:
+    if nplain != ncases + nrec:
         raise Infra("driver wrote %d events for %d cases" % (len(events), ncases + nrec))
     c.cov["evaluations"] = calls
     # ---- stage C
@@ -173,6 +193,29 @@ def run(c):
             c.report(k[0], k[1], describe(e2, k[1]),
                      dict(case=case_of(e), observed=e2, how="harness/cmd/ietypes replay [case] out.ndjson (registry from tables/ie_fields.json); validate with spec/trace/Trace_C09"))
     batch_triage(events, mism)
+    # cold-start orders: a mismatch there may exist only in that order; it is confirmed by running the same order again in a
+    # fresh process and finding the same class at the same position
+    omism = c.validate("Trace_C09", oevents, shards=12, timeout=3000)
+    if any(t[2] == "badevent" for _, t in omism):
+        raise Infra("trace spec could not interpret an order event: %r" % ([x for x in omism if x[1][2] == "badevent"][:3],))
+    per_first = {}
+    for idx, t in omism:
+        e = json.loads(oevents[idx]); cls = KNOWN_CLASS.get(t[2], t[2])
+        k = ("%s.Set%s" % (e["type"], e["field"]), cls)
+        if k in c.known_hits or any(v["what"].startswith("%s/%s" % k) for v in c.violations): continue
+        per_first.setdefault(oowner[idx][0], []).append((oowner[idx][1], k, e))
+    for first, items in sorted(per_first.items())[:3]:
+        ev2, _ = one_order(first)
+        again = dict((i, t) for i, t in c.validate("Trace_C09", ev2, shards=1))
+        c.cov["traces_validated_against_impl"] -= len(ev2)
+        fo = cases[first]
+        for pos, k, e in items[:2]:
+            if pos not in again or KNOWN_CLASS.get(again[pos][2], again[pos][2]) != k[1]:
+                c.note("mismatch %s/%s in the cold-start order of case %d not reproduced (ignored)" % (k + (first,))); continue
+            seen[k] = seen.get(k, 0) + 1
+            c.report(k[0], k[1] + "-after-cold-start-order", describe(json.loads(ev2[pos]), k[1]) + " - in a fresh process whose FIRST library call was %s.%s" % (fo["type"], fo["field"]),
+                     dict(first_call=dict(type=fo["type"], field=fo["field"], case_index=first), observed=json.loads(ev2[pos]),
+                          how="harness/cmd/ietypes order cases.json out.ndjson %d ; validate with spec/trace/Trace_C09 (event %d)" % (first, pos)))
 
     # digest mismatches: class low6 = the recorded wrong table exactly; anything else is expanded into its 256 cases
     dk, expand = {}, []
